@@ -332,7 +332,20 @@ def check_wrap():
         w2 = CSE(s, "old")
         r = fn(w2, "new")
         chk(f"{fn_name}(CSE with prefix, new prefix)", r, r is w2 or (type(r) is CSE and r.prefix == "old" and r.child is s))
-        r = fn(CSE(CSE(s))) if False else fn(w)
+        # already wrapped nodes of every scope stay as they are, whatever scope (or none) is asked for
+        for wscope in (p.cse_scope.EVALUATION, p.cse_scope.EXPRESSION, p.cse_scope.GLOBAL):
+            ws = CSE(s, None, wscope)
+            r = fn(ws)
+            chk(f"{fn_name}(CSE scope={wscope})", r, r is ws or (type(r) is CSE and not isinstance(r.child, CSE)))
+            if fn_name == "make_common_subexpression":
+                for ask in (None, p.cse_scope.EVALUATION, wscope):
+                    r = fn(ws, None, ask)
+                    chk(f"{fn_name}(CSE scope={wscope}, scope={ask})", r, type(r) is CSE and not isinstance(r.child, CSE))
+                a2 = np.empty(2, dtype=object)
+                a2[0], a2[1] = ws, s
+                r = fn(a2)
+                chk(f"{fn_name}(array with CSE scope={wscope})", r,
+                    isinstance(r, np.ndarray) and all(type(c) is CSE and not isinstance(c.child, CSE) for c in r))
     # componentwise on object arrays
     arr = np.empty(3, dtype=object)
     arr[0], arr[1], arr[2] = s, 5, CSE(s)
